@@ -105,6 +105,24 @@ func c01Case(tier string, i int, r *gen.Rand) (s Setting, d gen.Data, ops []gen.
 		}
 		ops = gen.Schedule(r, len(d.B), gen.FlushPositions(r, len(d.B)), style)
 		kind = "random"
+		if i%40 == 17 {
+			// a block whose distance symbols have chain-shaped frequencies (the
+			// distance tree must be length-limited), optionally with rare long
+			// matches at the rarest distances (the widest length+distance codes)
+			s = accelSettings[(i/40)%8]
+			nsym := r.Pick(16, 17, 18, 19, 20)
+			top := 29
+			if s.Win4K {
+				top = 23
+			}
+			first := r.Range(2, top-nsym+1)
+			d = gen.DeepDistance(r, nsym, first, r.Pick(0, 0, 4, 12), r.Pick(30000, 70000))
+			ops = []gen.Op{{Kind: "write", N: len(d.B)}, {Kind: "close"}}
+			if r.Chance(1, 3) {
+				ops = gen.Schedule(r, len(d.B), nil, "random")
+			}
+			kind = "deep-distance-tree"
+		}
 	case i < l.core+l.random+l.sweepSmall:
 		k := i - l.core - l.random
 		n := k % 1201
